@@ -12,7 +12,7 @@ fn last_float(s: &str) -> f64 { f64::from_bits(u64::from_str_radix(s.split_white
 pub fn exec(func: &str, a: &mut Args) -> String {
     match func {
         "d_contact" | "d_distance" | "d_it" | "d_cp" | "q_contact" | "q_distance" | "q_it" | "q_cp"
-        | "w_contact_ball_cp" => c03::exec(func, a),
+        | "w_contact_ball_cp" | "x_contact" | "x_distance" | "x_it" | "x_cp" => c03::exec(func, a),
         "v_closed" => {
             let s1 = c03::sh(a); let s2 = c03::sh(a); let m = d3::iso(a); let margin = a.f(); let pred = a.f();
             let it = c03::d_it(&s1, &s2, &m);
@@ -194,6 +194,32 @@ pub fn gen(r: &mut Rng, thorough: bool) -> Vec<(String, String)> {
             for f in ["sat_normal", "sat_edge", "it_cc"] { v.push((f.into(), cc.clone())); }
         }
         c03::two::gen_k(r, lat, &mut v);
+    }
+    // ---- degenerate-but-valid corners (shared with C03): ball centre exactly on a feature of the other shape, both argument
+    //      orders, rotated poses: the contact against the exact referee (x_contact), its self-consistency through the
+    //      point query (k_contact), and the four verdicts (v_dispatch, x_*).  Appended after the main loop: the stream above is unchanged.
+    let reps = if thorough { 60 } else { 6 };
+    for rep in 0..reps {
+        let lat = rep % 2 == 0;
+        for k in 0..c03::N_CORNERS {
+            let ((s1, p1), (s2, p2), par) = c03::gen_corner_case(r, lat, k);
+            let margin = c03::gen_param(r, lat).min(10.0);
+            for (a, pa, bb, pb) in [(&s1, &p1, &s2, &p2), (&s2, &p2, &s1, &p1)] {
+                let sw = format!("{} {} {} {}", c03::hsh(a), d3::hiso(pa), c03::hsh(bb), d3::hiso(pb));
+                v.push(("x_contact".into(), format!("{} {}", sw, hx(par))));
+                v.push(("k_contact".into(), format!("{} {}", sw, hx(par))));
+                v.push(("v_dispatch".into(), format!("{} {} {}", sw, hx(margin), hx(par))));
+                v.push(("x_cp".into(), format!("{} {}", sw, hx(margin))));
+                v.push(("x_distance".into(), sw.clone()));
+                v.push(("x_it".into(), sw));
+            }
+            // the same corner through a Compound part
+            if !matches!(s1, Sh::Ball(_)) {
+                let (c1, q1) = c03::wrap_in_compound(r, lat, &s1, &p1);
+                v.push(("k_contact".into(), format!("{} {} {} {} {}", c03::hsh(&c1), d3::hiso(&q1), c03::hsh(&s2), d3::hiso(&p2), hx(par))));
+                v.push(("k_contact".into(), format!("{} {} {} {} {}", c03::hsh(&s2), d3::hiso(&p2), c03::hsh(&c1), d3::hiso(&q1), hx(par))));
+            }
+        }
     }
     v
 }
